@@ -40,6 +40,15 @@ def run(chk):
             n = 3 if calls[0]["op"] == "configure" else 2
             extremes.append({"config": {"terminal_id": "11112222"}, "term": {"dangling": [4711]}, "calls": calls,
                              "plan": {"exchanges": [okp] * n, "default": {"o": "abort", "code": code}}})
+    # a terminal that refuses everything with the same code, and one that refuses but tolerates end-of-day with 'receiver not ready':
+    # every operation must give up
+    def ab(code, n=60):
+        return [{"script": [[0x06, 0x1e, 0x01, code]]} for _ in range(n)]
+    for code in (0x6a, 0xa0, 0xb4, 0x6c, 0xfc, 0x00, 0xff, 0x83):
+        for calls in ([{"op": "begin", "token": [97]}, {"op": "read_card"}], [{"op": "configure"}], [{"op": "new"}, {"op": "begin", "token": [97]}]):
+            extremes.append({"config": {"terminal_id": "11112222"}, "calls": calls, "plan": {"exchanges": [], "default": {"o": "abort", "code": code}}})
+            extremes.append({"config": {"terminal_id": "11112222"}, "calls": calls,
+                             "plan": {"exchanges": [], "scripts": {"EndOfDay": ab(0xa0), "Reservation": ab(code), "ReadCard": ab(code)}, "default": okp}})
     total = 0
     for label, binary in (("debug", dbg), ("release", rel)):
         out = cl.run_scenarios(binary, sc + extremes, wd, "c10" + label)
